@@ -17,7 +17,13 @@ import (
 	"time"
 )
 
-const VerifDir = "/verif"
+// VerifDir is where evidence, replays and known_findings.json live (check.sh exports XMC_VERIF).
+var VerifDir = func() string {
+	if d := os.Getenv("XMC_VERIF"); d != "" {
+		return d
+	}
+	return "/verif"
+}()
 
 // Violation is one case on which the implementation disagreed with the reference model.
 type Violation struct {
